@@ -193,7 +193,11 @@ def str_concat(I, parts, is_bytes):
         if s.is_bytes != isb:
             raise PyRaise(TypeError("can't concat str to bytes"), TypeError)
     t = ss[0].term if len(ss) == 1 else z3.Concat(*[s.term for s in ss])
-    return SStr(t, isb)
+    kl = None
+    lens = [(len(p) if isinstance(p, (bytes, str)) else p.known_len) for p in parts]
+    if all(x is not None for x in lens) and any(not isinstance(p, (bytes, str)) for p in parts):
+        kl = norm_int(z3.Sum([to_z3_int(x) for x in lens]))
+    return SStr(t, isb, kl)
 
 
 def to_str(I, v, conv="s"):
